@@ -633,6 +633,12 @@ package main
 //@   at_call (*orderedmap.OrderedMap).Set@newMap a-sub-pipeline-is-rebuilt-stage-by-stage {C01,C02,C03,C04,C05,C12,C14,C15,C19}: implies(opMeta == VOp(0) && isArr(v), isArr(value) && len(arrOf(value)) == len(arrOf(v)) && (len(arrOf(v)) == 0 || base(arrOf(value)) != base(arrOf(v))))
 //@   at_call (*orderedmap.OrderedMap).Set@newSubMap a-sub-pipeline-is-rebuilt-stage-by-stage {C01,C02,C03,C04,C05,C12,C14,C15,C19}: implies(subFound && subMeta == VOp(0) && isArr(subV), isArr(value) && len(arrOf(value)) == len(arrOf(subV)) && (len(arrOf(subV)) == 0 || base(arrOf(value)) != base(arrOf(subV))))
 //@   at_call (*orderedmap.OrderedMap).Set@newMap the-short-form-of-a-stage-names-a-collection {C12}: implies(redactNamespaces && isMap(opMeta) && (k == "$unionWith" || k == "$out") && isStr(v), value == VStr(HashNameSpec(redactedString, strOf(v))))
+//@   at_call redactArrayValues#3 the-sub-key-is-on-the-path-handed-down {C14,C05}: len(arg_keyPath) >= 1 && arg_keyPath[len(arg_keyPath)-1] == subK && (matchAny(redactedFieldsRegexp, selems(arg_keyPath), off(arg_keyPath), len(arg_keyPath)) || !reMatch(redactedFieldsRegexp, subK))
+//@   at_call redactArrayValues#4 the-sub-key-is-on-the-path-handed-down {C14,C05}: len(arg_keyPath) >= 1 && arg_keyPath[len(arg_keyPath)-1] == subK && (matchAny(redactedFieldsRegexp, selems(arg_keyPath), off(arg_keyPath), len(arg_keyPath)) || !reMatch(redactedFieldsRegexp, subK))
+//@   at_call redactArrayValues#5 the-sub-key-is-on-the-path-handed-down {C14,C05}: len(arg_keyPath) >= 1 && arg_keyPath[len(arg_keyPath)-1] == subK && (matchAny(redactedFieldsRegexp, selems(arg_keyPath), off(arg_keyPath), len(arg_keyPath)) || !reMatch(redactedFieldsRegexp, subK))
+//@   at_call redactPipelineStage#7 the-sub-key-is-on-the-path-handed-down {C14,C05}: len(arg_keyPath) >= 1 && arg_keyPath[len(arg_keyPath)-1] == subK && (matchAny(redactedFieldsRegexp, selems(arg_keyPath), off(arg_keyPath), len(arg_keyPath)) || !reMatch(redactedFieldsRegexp, subK))
+//@   at_call redactPipelineStage#8 the-sub-key-is-on-the-path-handed-down {C14,C05}: len(arg_keyPath) >= 1 && arg_keyPath[len(arg_keyPath)-1] == subK && (matchAny(redactedFieldsRegexp, selems(arg_keyPath), off(arg_keyPath), len(arg_keyPath)) || !reMatch(redactedFieldsRegexp, subK))
+//@   at_call redactPipelineStage#12 the-sub-key-is-on-the-path-handed-down {C14,C05}: len(arg_keyPath) >= 1 && arg_keyPath[len(arg_keyPath)-1] == subK && (matchAny(redactedFieldsRegexp, selems(arg_keyPath), off(arg_keyPath), len(arg_keyPath)) || !reMatch(redactedFieldsRegexp, subK))
 //@   at_call (*orderedmap.OrderedMap).Set@newPipelineMap facet-entry-relation {C01,C02,C03,C04,C05,C12,C14,C15,C19}: key == subK && FacetEntryRel(subV, value)
 //@   ensures key-path-frame: unchangedBelowExcept("Arr:Str", base(keyPath))
 //@   at_call redactPipelineStage search-mode-is-decided-for-each-stage-on-its-own {C01,C02,C03,C04,C05,C12,C14,C15,C19}: implies(len(arg_keyPath) == 0, IsSearch(arg_stage, arg_inSearchStage))
